@@ -6,7 +6,7 @@ budget=${1:-60}; shift
 ids=${@:-$(ls seeded | grep -v '^_')}
 for id in $ids; do
 	prop=$(python3 -c "import json;print(json.load(open('seeded/$id/meta.json'))['breaks_property'])")
-	out=$(driver/seeded.sh $prop seeded/$id/patch.diff $budget 2>&1)
+	out=$(driver/seeded.sh $prop $PWD/seeded/$id/patch.diff $budget 2>&1)
 	if echo "$out" | grep -q "patch does not apply"; then echo "SEEDED $id ($prop): patch no longer applies"; continue; fi
 	n=$(echo "$out" | grep -c "^VIOLATION")
 	cls=$(echo "$out" | grep -o "class=[^ ]*" | sort -u | tr '\n' ' ')
